@@ -54,7 +54,7 @@ func TestC18Reg_UndefinedStreamIds(t *testing.T) {
 	}
 }
 
-// TestC18Reg_HeartbeatSendVsCleanup reproduces known finding KF-C18-heartbeat-send-vs-cleanup
+// TestC18Reg_CleanupVsHeartbeatSend reproduces known finding KF-C18-stream-cleanup-unsynchronised
 // deterministically, without the race detector (it FAILS while the defect exists). The heartbeat
 // paths call Stream.queueSend without Stream.mu while Stream.cleanup closes sendQueue under it.
 // A peer that completed an honest handshake floods heartbeat pings and stops reading: the pongs fill
@@ -62,12 +62,12 @@ func TestC18Reg_UndefinedStreamIds(t *testing.T) {
 // sender hits the write timeout, the connection is torn down, cleanup closes the queue under the
 // blocked send -> "panic: send on closed channel" in startHeartbeat, which has no recover: the whole
 // node process dies. The scenario runs in a child process (this test binary re-executed).
-func TestC18Reg_HeartbeatSendVsCleanup(t *testing.T) {
+func TestC18Reg_CleanupVsHeartbeatSend(t *testing.T) {
 	if os.Getenv("C18_CHILD") == "pingflood" {
 		childPingFlood()
 		return
 	}
-	cmd := exec.Command(os.Args[0], "-test.run", "^TestC18Reg_HeartbeatSendVsCleanup$", "-test.timeout", "180s", "-test.v")
+	cmd := exec.Command(os.Args[0], "-test.run", "^TestC18Reg_CleanupVsHeartbeatSend$", "-test.timeout", "180s", "-test.v")
 	cmd.Env = append(os.Environ(), "C18_CHILD=pingflood")
 	cmd.Dir = t.TempDir()
 	out, err := cmd.CombinedOutput()
